@@ -5,6 +5,7 @@ package main
 
 import (
 	"fmt"
+	"go/types"
 	"strings"
 )
 
@@ -87,7 +88,12 @@ func (P *Prog) specTerminationVCs(sf *SpecFunc) ([]*VC, error) {
 			decls = append(decls, fmt.Sprintf("(declare-const %s %s)", n, s))
 			v := Val{T: Term{n, s}, GoT: si.paramT[i]}
 			if s == "Slice" {
-				return nil, fmt.Errorf("spec %s: recursive spec functions over slices are not supported", sf.Name)
+				es := P.sorts.sortOf(si.paramT[i].Underlying().(*types.Slice).Elem())
+				an := n + "_A"
+				asort := fmt.Sprintf("(Array Int %s)", es)
+				decls = append(decls, fmt.Sprintf("(declare-const %s %s)", an, asort))
+				at := Term{an, asort}
+				v.Aux = &at
 			}
 			env.bound[b.Name] = v
 		}
